@@ -102,6 +102,8 @@ structure Aux where
   status : Nat := 0            -- r->http_status
   started : Bool := false      -- r->resp_body_started
   finished : Bool := false     -- r->resp_body_finished
+  headSent : Bool := false     -- r->resp_header_len != 0: the response head has gone out to the client
+  short : Bool := false        -- r->resp_body_scratchpad > 0: announced body bytes still outstanding
   handler : Bool := false      -- r->handler_module == p->self
   key : Nat := 0
 deriving Inhabited
@@ -380,11 +382,26 @@ def backendClose (w : World) (s : Nat) : World :=
       (setHostLoad w2 h ((w2.host h).load - 1)).updLink s
         fun l => { l with host := none }
 
+/-- http_response_backend_incomplete(): nothing has gone out to the client yet, so the partial
+    response is dropped (http_response_body_clear) and 502 is sent instead -/
+def incompleteAux (a : Aux) : Aux :=
+  { a with started := false, finished := false, short := false, status := 502, handler := false }
+
 /-- http_response_backend_done() with r->state == CON_STATE_HANDLE_REQUEST -/
-def backendDone (w : World) (s : Nat) : World :=
-  if (w.auxOf s).started then w.updAux s fun a => { a with finished := true }
-  else w.updAux s fun a =>
+def doneAux (a : Aux) : Aux :=
+  if !a.started then
     { a with status := if a.status < 500 ∧ a.status ≠ 400 then 500 else a.status, handler := false }
+  else if a.finished then a
+  else if a.short ∧ !a.headSent then incompleteAux a
+  else { a with finished := true }     -- (head already sent and body short: http_response_backend_abort)
+
+def backendDone (w : World) (s : Nat) : World := w.updAux s doneAux
+
+/-- http_response_backend_error() -/
+def errAux (a : Aux) : Aux :=
+  if a.started ∧ !a.headSent then incompleteAux a
+  else if a.started then { a with handler := false, finished := true }
+  else a
 
 /-- gw_connection_close(): close, free the hctx, finish the response -/
 def connectionClose (w : World) (s : Nat) : World :=
@@ -393,9 +410,7 @@ def connectionClose (w : World) (s : Nat) : World :=
 
 /-- gw_backend_error(): http_response_backend_error + gw_connection_close -/
 def backendError (w : World) (s : Nat) : Rc × World :=
-  let w1 := if (w.auxOf s).started
-    then w.updAux s fun a => { a with handler := false, finished := true } else w
-  (.finished, connectionClose w1 s)
+  (.finished, connectionClose (w.updAux s errAux) s)
 
 /-- gw_reconnect() -/
 def reconnect (w : World) (s : Nat) : Rc × World :=
@@ -416,10 +431,13 @@ def recvResponseError (w : World) (s : Nat) : Rc × World :=
 def recvResponse (w : World) (s : Nat) : Rc × World :=
   let r := popRd w
   if r.1 = 'g' then (.goOn, r.2)
-  else if r.1 = 'd' then
-    -- response headers complete: the backend's status line replaces whatever was there
+  else if r.1 = 'd' ∨ r.1 = 'D' ∨ r.1 = 'l' then
+    -- response headers complete: the backend's status line replaces whatever was there;
+    -- 'D': the head has also been passed on to the client (streaming); 'l': the backend
+    -- announced more body bytes than it has sent so far
     (.goOn, r.2.updAux s fun a =>
-      { a with started := true, status := if a.started then a.status else 200, readTs := r.2.now })
+      { a with started := true, status := if a.started then a.status else 200, readTs := r.2.now,
+               headSent := a.headSent || r.1 = 'D', short := a.short || r.1 = 'l' })
   else if r.1 = 'x' then recvResponseError r.2 s
   else (.finished, connectionClose r.2 s)
 
